@@ -37,9 +37,10 @@ type setOps interface {
 type typedSet[T comparable] struct {
 	uni []T
 	s   set.Set[T]
+	arg set.Set[T] // a RETAINED argument set for AddSet/RemoveSet (`arg*` requests)
 }
 
-func (t *typedSet[T]) reset() { t.s = nil }
+func (t *typedSet[T]) reset() { t.s, t.arg = nil, nil }
 func (t *typedSet[T]) size() int { return len(t.uni) }
 
 func (t *typedSet[T]) execRT(codec, mode string, tgt []string) string {
@@ -251,6 +252,26 @@ func (t *typedSet[T]) exec(op string, idx []int) string {
 			b.WriteString(b2s(t.s.Has(t.uni[i])))
 		}
 		return b.String()
+	case "argnil":
+		t.arg = nil
+		return "ok"
+	case "arg":
+		t.arg = set.Make(t.vals(idx)...)
+		return "ok"
+	case "addarg":
+		return b2s(t.s.AddSet(t.arg))
+	case "removearg":
+		return b2s(t.s.RemoveSet(t.arg))
+	case "argprobe":
+		var b strings.Builder
+		for i := 0; i < idx[0]; i++ {
+			b.WriteString(b2s(t.arg.Has(t.uni[i])))
+		}
+		return b.String()
+	case "argadd":
+		return b2s(t.arg.Add(t.vals(idx)...))
+	case "argremove":
+		return b2s(t.arg.Remove(t.vals(idx)...))
 	}
 	return "bad-op"
 }
@@ -297,7 +318,7 @@ func (s *setImpl) Exec(line string) string {
 	idx := []int{}
 	for _, w := range ws[2:] {
 		n, err := strconv.Atoi(w)
-		if err != nil || n < 0 || n >= s.cur.size() && ws[1] != "probe" {
+		if err != nil || n < 0 || n >= s.cur.size() && ws[1] != "probe" && ws[1] != "argprobe" {
 			return "bad-op"
 		}
 		idx = append(idx, n)
@@ -369,6 +390,33 @@ func runC07(f *hx.Flags) {
 			case k == 5:
 				lines = append(lines, cat("removeset", args(0)), fmt.Sprintf("set probe %d", usz))
 				mut = true
+				if r.Rng.Intn(2) == 0 {
+					// the same through a RETAINED argument set, which is mutated and reused afterwards:
+					// the receiver and the argument must stay independent values
+					both := []string{fmt.Sprintf("set probe %d", usz), fmt.Sprintf("set argprobe %d", usz)}
+					switch r.Rng.Intn(3) {
+					case 0:
+						lines = append(lines, "set argnil")
+					default:
+						lines = append(lines, cat("arg", args(0)))
+					}
+					for q, Q := 0, 1+r.Rng.Intn(5); q < Q; q++ {
+						switch r.Rng.Intn(6) {
+						case 0, 1:
+							lines = append(lines, "set addarg")
+						case 2:
+							lines = append(lines, "set removearg")
+						case 3:
+							lines = append(lines, cat("argadd", args(0)))
+						case 4:
+							lines = append(lines, cat("argremove", args(0)))
+						default:
+							lines = append(lines, cat([]string{"add", "remove"}[r.Rng.Intn(2)], args(0)))
+						}
+						lines = append(lines, both...)
+					}
+					tags = append(tags, "retained-arg")
+				}
 			case k < 8:
 				min := 1
 				if !domain {
